@@ -71,8 +71,18 @@ func Items(thorough bool) ([]item, error) {
 	f32 := float32(0.1)
 	f64 := 0.1
 	extras := []any{f32, f64, float64(f32), &f32, []any{f32}, []float32{f32}, []any{f64}, map[string]any{"a": f32}, map[string]float64{"a": f64}, json.Number("0.10"), json.Number("1E-1")}
-	for _, x := range extras {
-		if err := add(x, gen.Describe(x)); err != nil {
+	// slices that share a backing array with another value of the set (aliasing
+	// between the two sides must not matter: only the JSON value does)
+	all := []any{float64(1), float64(2), float64(3)}
+	ints := []int{1, 2, 3}
+	extras = append(extras, all, all[:2], all[:1], all[:0], all[1:], ints, ints[:2], ints[:0],
+		map[string]any{"k": all}, map[string]any{"k": all[:2]}, []any{all}, []any{all[:2]}, &all)
+	for i, x := range extras {
+		d := gen.Describe(x)
+		if seen[d] {
+			d += fmt.Sprintf(" /*extra %d: shares a backing array*/", i)
+		}
+		if err := add(x, d); err != nil {
 			return nil, err
 		}
 	}
